@@ -122,7 +122,7 @@ func ZZ_C45_ScriptLocation_LLEN() {
 
 //verif:harness property=C45 mode=bv unwind=80 lens=0..3 steps=30000000
 func ZZ_C45_StringLocation_LLEN() {
-	lb := zzNondetBytes(zzChoice(3) + 1)
+	lb := zzNondetBytes(zzChoice(4))
 	zzAssume(zzNoDot(lb))
 	loc := StringLocation(string(lb))
 	qid := string(zzNondetBytes(LEN))
@@ -150,7 +150,7 @@ func ZZ_C45_StringLocation_LLEN() {
 
 //verif:harness property=C45 mode=bv unwind=80 lens=0..3 steps=30000000
 func ZZ_C45_IdentifierLocation_LLEN() {
-	lb := zzNondetBytes(zzChoice(3) + 1)
+	lb := zzNondetBytes(zzChoice(4))
 	zzAssume(zzNoDot(lb))
 	loc := IdentifierLocation(string(lb))
 	qid := string(zzNondetBytes(LEN))
